@@ -448,3 +448,35 @@ Definition lake_order_required (s : seq) : option bool :=
     Some order_required
   | _ => None
   end.
+
+(* ---- maybeNewRangePruner / buildRangePruner: does Optimize give the Lister a
+        key-range pruner for the pushed-down filter?  (What the pruner computes
+        is C16's subject; here only which filters get one.)  Binary operator
+        codes from the harness: 0 and, 1 or, 2 ==, 3 <, 4 <=, 5 >, 6 >=. ---- *)
+Definition is_cmp_op (o : N) : bool := (2 <=? o)%N && (o <=? 6)%N.
+
+Fixpoint prunable (e : expr) (key : path) : bool :=
+  match e with
+  | EBinary o a b =>
+    if (o =? 0)%N then prunable a key || prunable b key
+    else if (o =? 1)%N then prunable a key && prunable b key
+    else if is_cmp_op o then
+      match a, b with
+      | EThis p, ELit _ => path_eqb p key
+      | ELit _, EThis p => path_eqb p key
+      | _, _ => false
+      end
+    else false
+  | _ => false
+  end.
+
+Definition lake_pruner_present (s : seq) : option bool :=
+  let s4 := merge_filters (opt_parallels (remove_pass (merge_filters s))) in
+  match s4 with
+  | OScan sk _ :: (_ :: _) as chain =>
+    match chain, sk with
+    | OFilter e :: _, (_, key) :: _ => Some (prunable e key)
+    | _, _ => Some false
+    end
+  | _ => None
+  end.
